@@ -274,11 +274,25 @@ func (w *c20world) logsOf(open func(g *protocoltypes.Group) (*GroupContext, erro
 
 // restore an archive into a fresh node (with an account already present if hasAccount)
 func (w *c20world) restore(archive []byte, hasAccount bool, patience time.Duration) *c20outcome {
+	return w.restoreOnto(archive, hasAccount, false, patience)
+}
+
+// proofOnly: the store has been used for a multi-member group before its account was ever looked at,
+// which creates the account PROOF key (member keys derive from it) and no account key: half an account
+func (w *c20world) restoreOnto(archive []byte, hasAccount, proofOnly bool, patience time.Duration) *c20outcome {
 	ctx, cancel := context.WithCancel(w.ctx)
 	defer cancel()
 	n := vNewNode(ctx, w.t)
 	r := n.newAccount()
-	if !hasAccount {
+	if proofOnly {
+		mg, _, err := NewGroupMultiMember()
+		if err != nil {
+			w.t.Fatal(err)
+		}
+		if _, err := r.ss.GetOwnMemberDeviceForGroup(mg); err != nil {
+			w.t.Fatal(err)
+		}
+	} else if !hasAccount {
 		// a store without any account key: nothing may be generated before the restore
 	} else {
 		if _, err := r.ss.GetAccountPrivateKey(); err != nil {
@@ -590,6 +604,7 @@ func c20history(t *testing.T, pctx context.Context, out *vharness.Out, rng *rand
 	}
 	muts := []mutation{{"as exported", files, false, "same", 30 * time.Second}}
 	muts = append(muts, mutation{"onto a store that already holds an account", files, true, "rejected", 30 * time.Second})
+	muts = append(muts, mutation{"onto a store that already holds half an account (the proof key, created by the use of a multi-member group)", files, false, "rejected", 30 * time.Second})
 	// entry bytes that do not match their identifier
 	for k := 0; k < 3 && len(entryIdx) > 0; k++ {
 		fs := clone()
@@ -714,7 +729,7 @@ func c20history(t *testing.T, pctx context.Context, out *vharness.Out, rng *rand
 
 	keyBlobs := map[string]uint64{}
 	for mi, m := range muts {
-		o := w.restore(c20write(m.files), m.account, m.wait)
+		o := w.restoreOnto(c20write(m.files), m.account, strings.Contains(m.name, "half an account"), m.wait)
 		ok, note := true, ""
 		same := o.class == 0 && bytes.Equal(o.account, accKey) && bytes.Equal(o.proof, proofKey) &&
 			fmt.Sprint(o.logs) == fmt.Sprint(wantLogs) && fmt.Sprint(o.state) == fmt.Sprint(wantState) && o.lost == ""
@@ -746,7 +761,7 @@ func c20history(t *testing.T, pctx context.Context, out *vharness.Out, rng *rand
 		}
 		out.Emit(vharness.Case{
 			Kind: "restore",
-			Coq:  fmt.Sprintf("CRestore %v %s %d %s", m.account, w.archiveCoq(m.files, anc, keyBlobs), o.class, w.restoredCoq(o)),
+			Coq:  fmt.Sprintf("CRestore %v %s %d %s", m.account || strings.Contains(m.name, "half an account"), w.archiveCoq(m.files, anc, keyBlobs), o.class, w.restoredCoq(o)),
 			Key:  fmt.Sprintf("%d|%v|%s|%d", hi, desc, m.name, mi), Nontrivial: m.name != "as exported" || len(entryIdx) > 3,
 			OracleOK: ok, Note: note, Sig: "account restore: " + m.name,
 			Replay: map[string]any{"history": desc, "mutation": m.name, "files": len(m.files)},
